@@ -223,8 +223,78 @@ def job_recovery(job, nx):
                note=f"(nx-1)/nx = {float(Fraction(nx - 1, nx)):.4f}")
 
 
+def replay_row_order(model, n=3):
+    """Real FlowProperties on the model's table listed low-to-high and high-to-low: the functions the solver reads must agree."""
+    import warnings
+    import numpy as np
+    from bluebonnet.flow import flowproperties as fp
+    from .c09 import _real_table, _names, LONG
+    names = _names(n, LONG)
+    m = model_floats(model, names, default={k: 1.0 for k in names})
+    t = _real_table(m, n, LONG)
+    lo, hi = float(t["pressure"][0]), float(t["pressure"][-1])
+    pi = min(max(m["pi"], lo), hi)
+    with warnings.catch_warnings():
+        warnings.simplefilter("ignore")
+        with np.errstate(all="ignore"):
+            A = fp.FlowProperties({k: v.copy() for k, v in t.items()}, pi)
+            try:
+                D = fp.FlowProperties({k: v[::-1].copy() for k, v in t.items()}, pi)
+            except ValueError as ex:
+                return False, {"what": f"a table listed high-to-low is rejected: {ex!r}", "inputs": m}
+            qs = [m["q"], float(A.m_i), 0.5 * float(A.m_i)] + [float(v) for v in np.asarray(A.pvt_props["m-scaled"], float)]
+            problems = []
+            for q in qs:
+                a, d = float(A.alpha(q)), float(D.alpha(q))
+                if abs(a - d) > 1e-9 * abs(a):
+                    problems.append(f"alpha({q!r}) = {a!r} (rows low-to-high) vs {d!r} (same rows high-to-low)")
+            if abs(float(A.m_i) - float(D.m_i)) > 1e-12 * abs(float(A.m_i)):
+                problems.append(f"m_i {float(A.m_i)!r} vs {float(D.m_i)!r}")
+    return bool(problems), {"what": "; ".join(problems[:3]) or "same functions for both row orders", "inputs": m}
+
+
+def job_row_order(job, n):
+    """The problem that is solved (diffusivity as a function of scaled pseudopressure, m_i, the frac-face value) must not
+    depend on the order in which the rows of the PVT table are listed: a table given high-to-low is the same table.
+    (A constructor that rejects such a table with ValueError is accepted: nothing is silently different.)"""
+    from . import c09
+    mod = c09._load()
+    job.encoded(mod, "FlowProperties.__init__")
+    job.stub("scipy.interpolate.interp1d: exact piecewise-linear model (sorts its abscissae, as scipy does)",
+             "numpy.interp (if used): exact on increasing abscissae, unspecified value otherwise (as numpy documents)")
+    tab, ps, dom = c09._table(n, c09.LONG)
+    pi, q, pf = fresh("pi", pos=True), fresh("q"), fresh("pf", pos=True)
+    dom = dom + [T.b_le(P(ps[0]), P(pi)), T.b_le(P(pi), P(ps[-1])), T.b_le(P(ps[0]), P(pf)), T.b_le(P(pf), P(pi))]
+    rp = (replay_row_order, {"n": n})
+
+    def run():
+        import warnings
+        SS.reset_names()
+        with warnings.catch_warnings():
+            warnings.simplefilter("ignore")
+            A = mod.FlowProperties({k: v.copy() for k, v in tab.items()}, pi)
+            try:
+                D = mod.FlowProperties({k: SymArray(list(reversed(v.d)), v.dtype_tag) for k, v in tab.items()}, pi)
+            except ValueError:
+                return None
+        return A.alpha(q), D.alpha(q), A.m_i, D.m_i, A.m_scaled_func(pf), D.m_scaled_func(pf)
+
+    for k, pr in enumerate(paths(job, run, dom, max_paths=256)):
+        if pr.exc is not None:
+            job.errors.append(f"row-order[{n}] raised {pr.exc!r}")
+            continue
+        if pr.value is None:
+            job.record(f"row-order[{n}]/table listed high-to-low rejected with ValueError[path{k}]", "unsat", 0.0)
+            continue
+        aq, dq, ami, dmi, af, df = pr.value
+        bad = T.b_or(not_close(dq, aq, abs_tol=Fraction(0)), not_close(dmi, ami, abs_tol=Fraction(0)), not_close(df, af, abs_tol=Fraction(0)))
+        job.prove(f"row-order[{n}]/diffusivity lookup, m_i and frac-face value independent of the listing order of the rows[path{k}]",
+                  pr.pc + [bad], bound=f"{n} rows, any query", replay=rp)
+    job.prove(f"row-order[{n}]/reach", dom, expect="sat")
+
+
 def jobs(tier):
-    out = []
+    out = [("row-order-3", lambda j: job_row_order(j, 3))]
     for nx in ((5, 6) if tier == "quick" else (5, 6, 7, 8)):
         for cls in ("IdealReservoir", "SinglePhaseReservoir"):
             out.append((f"L1-{cls[:6]}-{nx}", lambda j, c=cls, n=nx: job_interior(j, c, n)))
